@@ -1,1 +1,125 @@
+(* C20 proofs, part 1: chain extraction and evaluator lemmas. *)
+From Coq Require Import Lia.
 From V Require Import lib.Verdict C20.Model.
+Open Scope N_scope.
+
+(* ------------------------------------------------------------------ projections of a chain *)
+
+Definition hit (t : table) (c : chain) (r : rule) : bool :=
+  table_eqb (r_table r) t && chain_eqb (r_chain r) c.
+Definition bd (r : rule) : body := (r_m r, r_t r).
+Fixpoint proj (t : table) (c : chain) (l : list rule) : list body :=
+  match l with
+  | [] => []
+  | r :: l => if hit t c r then bd r :: proj t c l else proj t c l
+  end.
+Definition miss t c (l : list rule) := forallb (fun r => negb (hit t c r)) l.
+Definition noins t c (l : list rule) :=
+  forallb (fun r => negb (hit t c r) || match r_pos r with None => true | Some _ => false end) l.
+
+Lemma proj_app t c l1 l2 : proj t c (l1 ++ l2) = proj t c l1 ++ proj t c l2.
+Proof. induction l1 as [|r l1 IH]; cbn; [reflexivity|]. destruct (hit t c r); cbn; rewrite IH; reflexivity. Qed.
+
+Lemma proj_miss t c l : miss t c l = true -> proj t c l = [].
+Proof.
+  induction l as [|r l IH]; cbn; [reflexivity|]. intros H. apply andb_prop in H. destruct H as [H1 H2].
+  destruct (hit t c r); [discriminate|]. apply IH. exact H2.
+Qed.
+
+Lemma miss_app t c l1 l2 : miss t c l1 = true -> miss t c l2 = true -> miss t c (l1 ++ l2) = true.
+Proof. unfold miss. intros. rewrite forallb_app. rewrite H, H0. reflexivity. Qed.
+Lemma miss_flat_map {X} t c (f : X -> list rule) l :
+  (forall x, miss t c (f x) = true) -> miss t c (flat_map f l) = true.
+Proof. intros H. induction l; cbn; [reflexivity|]. apply miss_app; auto. Qed.
+Lemma miss_map {X} t c (f : X -> rule) l :
+  (forall x, hit t c (f x) = false) -> miss t c (map f l) = true.
+Proof. intros H. induction l; cbn; [reflexivity|]. rewrite H. cbn. exact IHl. Qed.
+
+Lemma noins_app t c l1 l2 : noins t c l1 = true -> noins t c l2 = true -> noins t c (l1 ++ l2) = true.
+Proof. unfold noins. intros. rewrite forallb_app. rewrite H, H0. reflexivity. Qed.
+Lemma noins_flat_map {X} t c (f : X -> list rule) l :
+  (forall x, noins t c (f x) = true) -> noins t c (flat_map f l) = true.
+Proof. intros H. induction l; cbn; [reflexivity|]. apply noins_app; auto. Qed.
+Lemma noins_map {X} t c (f : X -> rule) l :
+  (forall x, noins t c [f x] = true) -> noins t c (map f l) = true.
+Proof.
+  intros H. induction l; cbn; [reflexivity|]. specialize (H a). cbn in H. rewrite andb_true_r in H.
+  rewrite H. exact IHl.
+Qed.
+
+Ltac split_ifs :=
+  repeat match goal with
+         | |- context [if ?b then _ else _] => destruct b
+         | |- context [match in_inc ?c with _ => _ end] => destruct (in_inc c)
+         end.
+
+Ltac solve_miss :=
+  repeat first
+    [ reflexivity
+    | apply miss_app
+    | apply miss_flat_map; intro
+    | apply miss_map; intro
+    | progress split_ifs ].
+Ltac solve_noins :=
+  repeat first
+    [ reflexivity
+    | apply noins_app
+    | apply noins_flat_map; intro
+    | apply noins_map; intro
+    | progress split_ifs ].
+
+Definition F t c l acc := fold_left (step t c) l acc.
+Lemma F_noins t c l : forall acc, noins t c l = true -> F t c l acc = acc ++ proj t c l.
+Proof.
+  unfold F. induction l as [|r l IH]; intros acc H; cbn.
+  - rewrite app_nil_r. reflexivity.
+  - cbn in H. apply andb_prop in H. destruct H as [H1 H2]. rewrite IH by exact H2.
+    unfold step, hit in *. destruct (table_eqb (r_table r) t && chain_eqb (r_chain r) c); cbn in *.
+    + destruct (r_pos r); [discriminate|]. rewrite <- app_assoc. reflexivity.
+    + reflexivity.
+Qed.
+Lemma chain_of_noins t c l : noins t c l = true -> chain_of t c l = proj t c l.
+Proof. intros H. unfold chain_of. change (F t c l [] = proj t c l). rewrite F_noins by exact H. reflexivity. Qed.
+
+Lemma F_app t c l1 l2 acc : F t c (l1 ++ l2) acc = F t c l2 (F t c l1 acc).
+Proof. unfold F. apply fold_left_app. Qed.
+Lemma F_miss t c l acc : miss t c l = true -> F t c l acc = acc.
+Proof.
+  intros H. rewrite F_noins.
+  - rewrite proj_miss by exact H. apply app_nil_r.
+  - unfold miss, noins in *. rewrite forallb_forall in *. intros x Hx. rewrite (H x Hx). reflexivity.
+Qed.
+
+(* ------------------------------------------------------------------ evaluator lemmas *)
+
+Lemma go_app call l1 : forall l2 p,
+  go call (l1 ++ l2) p = match go call l1 p with Fall p' => go call l2 p' | r => r end.
+Proof.
+  induction l1 as [|[ms t] l1 IH]; intros l2 p; cbn [app go]; [reflexivity|].
+  destruct (forallb (m_ok p) ms); [|apply IH].
+  destruct t; try reflexivity; try apply IH.
+  destruct (call c p); try reflexivity; apply IH.
+Qed.
+
+Definition to_res (v : verdict) (p : pkt) : res := match v with VAccept => Ret p | v => Term v p end.
+Definition fin (r : res) : verdict := match r with Term v _ => v | Ret _ | Fall _ => VAccept | Fuel => VFuel end.
+
+Lemma proto_eqb_refl q : proto_eqb q q = true.
+Proof. destruct q; reflexivity. Qed.
+
+Lemma cidr_host s a : cidr_match (C s 0) a = (a =? s).
+Proof. unfold cidr_match. cbn [c_hb c_base]. rewrite !N.shiftr_0_r. reflexivity. Qed.
+
+(* recursive form of the owner blocks' decision *)
+Fixpoint owner_rec (ids : list N) (id : N) (condB : bool) (self : verdict) : option verdict :=
+  match ids with
+  | [] => None
+  | u :: rest => if id =? u then Some self else if condB then Some VAccept else owner_rec rest id condB self
+  end.
+Lemma owner_rec_phase ids id condB self : owner_rec ids id condB self = owner_phase ids id condB self.
+Proof.
+  unfold owner_phase. destruct condB.
+  - destruct ids as [|u rest]; cbn; [reflexivity|]. destruct (id =? u); reflexivity.
+  - induction ids as [|u rest IH]; cbn; [reflexivity|]. unfold mem in *. cbn.
+    destruct (id =? u); cbn; [reflexivity|]. exact IH.
+Qed.
